@@ -1365,6 +1365,15 @@ class FortranFile:
                 line_no = idx
                 line_no_end = line_no
                 continue
+            # A fixed-form comment line is not code, whatever its text looks like
+            # ("Do not change ...", "Call the ..."); OpenMP sentinels are kept
+            if (
+                get_full
+                and self.fixed
+                and FRegex.FIXED_COMMENT.match(line)
+                and not FRegex.FIXED_OPENMP.match(line)
+            ):
+                continue
             # Handle preprocessing regions
             do_skip = False
             for pp_reg in pp_skips:
